@@ -84,9 +84,13 @@ def base_request(ch, cmd, v1):
                                                   for _ in range(1 + ch.draw(2, "nn"))]},
                 "version": 5}
     if cmd in ("advanceBlockchain", "updateAncestorBlock"):
-        n = 1 + ch.draw(2, "nblk")
+        n = [1, 2, 1, 2, 1, 2, 11, 0][ch.draw(8, "nblk")] or ch.pick([10, 12, 17, 40], "nblk.many")
         blocks = []
-        for _ in range(n):
+        if n >= 10:
+            # a long batch (what a node catching up sends): one well-formed header, repeated - the
+            # verdict on the request's form does not depend on how many blocks it carries
+            blocks = [rsk.gen_header(ch, nfields=19, max_cb=100)["raw"].hex()] * n
+        for _ in range(n if n < 10 else 0):
             if ch.draw(3, "blk.kind") == 0:
                 blocks.append(rsk.gen_header(ch, nfields=19, max_cb=100)["raw"].hex())
             else:
@@ -224,6 +228,18 @@ def prepare_state(w, ch, state):
 
 
 def run_one(ch, cfg):
+    # half of the runs log as the deployed manager does (every record formatted, output discarded):
+    # what the logging calls on a request's way do to it is part of how it gets classified
+    from sim import boot
+    log_on = ch.draw(2, "logging.as-deployed") == 1
+    boot.logging_as_deployed(log_on)
+    try:
+        return _run_one(ch, cfg)
+    finally:
+        boot.logging_as_deployed(False)
+
+
+def _run_one(ch, cfg):
     v1 = ch.draw(5, "mode.v1") == 1
     cmds = ["version", "sign", "getPubKey"] if v1 else \
         ["version", "sign", "getPubKey", "advanceBlockchain", "resetAdvanceBlockchain",
